@@ -28,7 +28,7 @@ META = dict(
     ),
 )
 META["explanation"] += (
-    " Added after the independent seeding rounds 2-3: " 'R1 for get_minimum/get_maximum is a decision table: the two keyword values are only compared, so the returned (value, exclusive?) is decided for each of the three orderings and each presence combination, independent of how the function is written (tie goes to the exclusive bound).'
+    " Added after the independent seeding rounds 2-3: " 'R1 for get_minimum/get_maximum is a decision table: the two keyword values are only compared, so the returned (value, exclusive?) is decided for each of the three orderings and each presence combination, independent of how the function is written (tie goes to the exclusive bound); opt_min/opt_max likewise. R5 every digit class `[LO-HI][0-9]*` of the range regexes is emitted under a guard equivalent to LO <= HI (template, arguments and guard are variable+constant).'
 )
 
 SWAP_FIELDS = {"minimum": "maximum", "maximum": "minimum", "exclusive_minimum": "exclusive_maximum", "exclusive_maximum": "exclusive_minimum"}
@@ -188,10 +188,122 @@ def opt_minmax_table(ctx):
                       "%s with %s returns %s, expected %s" % (fn, name, sorted(got), sorted(want)), site=b.where())
 
 
+def digit_class_rule(ctx):
+    """The fraction/integer range regexes are assembled from digit classes `[LO-HI][0-9]*`.  A class must be emitted exactly
+    when it is non-empty, LO <= HI: a guard that is stricter drops a one-digit class (numbers inside the bounds are
+    rejected), a looser one emits an inverted class.  LO and HI are read off the format template and its arguments, the
+    dominating comparison off the CFG; all three are `variable + constant`, so the equivalence is a comparison of two
+    integers.  Sites whose operands are not of that form are not judged."""
+    import ast as _ast
+    P = ctx.prog
+    n_sites, n_judged = 0, 0
+
+    def lin(b, e, depth=6):
+        """(key, const) with value = key + const; key None for a pure constant; None if not linear"""
+        e = L.strip_wrappers(e)
+        if e[0] == "const" and isinstance(e[1], int):
+            return (None, e[1])
+        if e[0] == "bin" and e[1] in ("Add", "Sub") and depth > 0:
+            a, c = lin(b, e[2], depth - 1), lin(b, e[3], depth - 1)
+            if a and c and c[0] is None:
+                return (a[0], a[1] + (c[1] if e[1] == "Add" else -c[1]))
+            if a and c and a[0] is None and e[1] == "Add":
+                return (c[0], a[1] + c[1])
+            return None
+        if e[0] in ("place", "local", "ref", "deref"):
+            if e[0] == "deref":
+                return lin(b, e[1], depth - 1)
+            return (F.fmt_expr(e) + "#" + repr(e[1]), 0)
+        return None
+    for i, b in sorted(P.bodies.items()):
+        if not i.startswith(NUM) or not P._is_code(b):
+            continue
+        for bi, si, st in b.statements():
+            r = st.get("r", {})
+            if not (st["s"] == "assign" and r.get("rv") == "use" and str(r["o"].get("ty", "")).startswith("&[u8;") and "[" in str(r["o"].get("k", ""))):
+                continue
+            try:
+                raw = _ast.literal_eval(r["o"]["k"])
+            except Exception:
+                continue
+            pieces, k = [], 0
+            while k < len(raw) and raw[k] != 0:
+                if raw[k] == 0xC0:
+                    pieces.append(None)
+                    k += 1
+                elif raw[k] < 0x80:
+                    pieces.append(raw[k + 1:k + 1 + raw[k]].decode("latin1"))
+                    k += 1 + raw[k]
+                else:
+                    pieces = []
+                    break
+            txt = "".join("\x00" if p_ is None else p_ for p_ in pieces)
+            import re as _re
+            m = _re.match(r"^\[(\x00|[0-9])-(\x00|[0-9])\]", txt)
+            if not m:
+                continue
+            n_sites += 1
+            args = []
+            for st2 in b.blocks[bi]["st"]:
+                if st2["s"] == "assign" and st2["r"].get("rv") == "agg" and st2["r"].get("kind") == "array":
+                    for o in st2["r"]["ops"]:
+                        e = b.expr(o)
+                        inner = e[2][0] if e[0] == "call" and e[2] else e
+                        v = L.value_of(b, inner) if inner[0] in ("place", "ref") else inner
+                        args.append(v if v else inner)
+            ai = 0
+            ends = []
+            for g_ in (m.group(1), m.group(2)):
+                if g_ == "\x00":
+                    ends.append(lin(b, args[ai]) if ai < len(args) else None)
+                    ai += 1
+                else:
+                    ends.append((None, int(g_)))
+            lo, hi = ends
+            if lo is None or hi is None or (lo[0] is not None and hi[0] is not None and lo[0] == hi[0]):
+                continue
+            need = hi[1] - lo[1]           # LO <= HI  <=>  (klo - khi) <= need
+            # dominating comparisons between the same two keys
+            best = None
+            for sb_, e_, targets_, otherwise_ in b.switch_edges():
+                cur, pol = F.peel_polarity(e_)
+                if cur[0] != "bin" or cur[1] not in ("Lt", "Le", "Gt", "Ge"):
+                    continue
+                A, B = lin(b, cur[2]), lin(b, cur[3])
+                if not A or not B:
+                    continue
+                tt, ft = F.bool_targets(targets_, otherwise_)
+                for truth, heads in ((True, tt), (False, ft)):
+                    if not heads or L.dominated_by_cut(b, [bi], [(sb_, h) for h in heads]):
+                        continue
+                    op = cur[1] if truth == pol else {"Lt": "Ge", "Le": "Gt", "Gt": "Le", "Ge": "Lt"}[cur[1]]
+                    # normalise to (klo - khi) <= t
+                    if (A[0], B[0]) == (lo[0], hi[0]) and op in ("Lt", "Le"):
+                        t = B[1] - A[1] - (1 if op == "Lt" else 0)
+                    elif (A[0], B[0]) == (hi[0], lo[0]) and op in ("Gt", "Ge"):
+                        t = A[1] - B[1] - (1 if op == "Gt" else 0)
+                    else:
+                        continue
+                    best = t if best is None else min(best, t)
+            if best is None:
+                continue
+            n_judged += 1
+            fnm = i.rsplit("::", 1)[1]
+            ctx.check(best == need, "C08-R5", "digit-class-guard:%s#%d" % (fnm, n_judged),
+                      "class %s is emitted exactly when it is non-empty" % m.group(0).replace("\x00", "{}"),
+                      "%s emits the digit class %s under a guard that is %s than `LO <= HI` (guard: LO-HI <= %d, needed: <= %d): %s"
+                      % (i, m.group(0).replace("\x00", "{}"), "stricter" if best < need else "looser", best, need,
+                         "a class with exactly one digit is dropped and numbers inside the bounds are rejected" if best < need
+                         else "an inverted class can be emitted"), site=b.where(bi))
+    ctx.floor("C08-R5", "digit-class templates in json/numeric.rs", n_sites, 5)
+    ctx.floor("C08-R5", "digit-class sites with a decidable guard", n_judged, 3)
+
+
 def run(ctx):
     P = ctx.prog
     # ------------------------------------------------------------------ R1 mirrors
     bound_selection_table(ctx)
+    digit_class_rule(ctx)
     opt_minmax_table(ctx)
     for a, b, what in ():
         ba, bb = ctx.body(a), ctx.body(b)
